@@ -184,15 +184,21 @@ def wrappedLayout (alg other : String) (nonceLen : Nat) : Nat × Nat × Nat :=
 
 inductive AsyncEntry
   | storeProvision | storeOpen | storeRemove | storeCopy | migrateIndySdk
+  -- the profile / key-entry calls whose error callbacks and NULL-argument arms round 2 of the coverage audit named
+  | createProfile | getProfileName | listProfiles | removeProfile | getDefaultProfile | setDefaultProfile | storeRekey
+  | updateKey | removeKey
   deriving DecidableEq, Repr
 
 /-- number of mandatory string arguments, in the order they are tested -/
 def AsyncEntry.required : AsyncEntry → Nat
   | .storeProvision | .storeOpen | .storeRemove | .storeCopy => 1     -- the URI
   | .migrateIndySdk => 4                                               -- spec_uri, wallet_name, wallet_key, kdf_level
+  | .removeProfile | .setDefaultProfile => 1                           -- "Profile name not provided"
+  | .updateKey | .removeKey => 1                                       -- "No key name provided"
+  | .createProfile | .getProfileName | .listProfiles | .getDefaultProfile | .storeRekey => 0
 
 def AsyncEntry.hasMethod : AsyncEntry → Bool
-  | .storeProvision | .storeOpen | .storeCopy => true
+  | .storeProvision | .storeOpen | .storeCopy | .storeRekey => true
   | _ => false
 
 /-- `x.into_opt_string().ok_or_else(|| err_msg!(..))?` for each mandatory string, in order -/
@@ -289,6 +295,50 @@ def closeRaceOutcomes (commit : Bool) (commitRes : Except Err Unit) : List (Bool
   let c2 := cstep c1.1 .release
   let c := sessionCloseTask c2.1 commit commitRes
   [(a1.2 == .borrowed, a.2), (b1.2 == .borrowed, b.2), (c1.2 == .borrowed, c.2)]
+
+/-! ## (h') A backend that fails inside an accepted call -/
+
+/-- faults installed out of band on the store's file (`RAISE(ABORT)` triggers, a table renamed away) -/
+inductive Fault
+  | profilesInsert | profilesDelete | profilesUpdate | configWrite | itemsInsert | itemsDelete | profilesHidden | configHidden
+  deriving DecidableEq, Repr
+
+/-- the store calls, by the first statement they run that a fault can hit (`exists` / `matches`: a row-level
+    trigger fires only when the statement touches a row) -/
+inductive StoreCall
+  | createProfile                    -- INSERT OR IGNORE INTO profiles
+  | removeProfile (exists_ : Bool)   -- DELETE FROM profiles WHERE name=?
+  | setDefaultProfile                -- INSERT OR REPLACE INTO config
+  | getDefaultProfile                -- SELECT value FROM config
+  | listProfiles                     -- SELECT name FROM profiles
+  | rekey                            -- UPDATE profiles SET profile_key … (then UPDATE config), one transaction
+  | insertItem                       -- INSERT OR IGNORE INTO items (a BEFORE trigger fires ahead of the conflict test)
+  | removeItem (exists_ : Bool)      -- DELETE FROM items WHERE …
+  | removeAll (hitRows : Nat)        -- DELETE FROM items AS i WHERE …
+  deriving DecidableEq, Repr
+
+def Fault.hits : Fault → StoreCall → Bool
+  | .profilesInsert, .createProfile => true
+  | .profilesDelete, .removeProfile e => e
+  | .profilesUpdate, .rekey => true
+  | .configWrite, .setDefaultProfile => true
+  | .configWrite, .rekey => true
+  | .itemsInsert, .insertItem => true
+  | .itemsDelete, .removeItem e => e
+  | .itemsDelete, .removeAll n => decide (0 < n)
+  | .profilesHidden, .createProfile | .profilesHidden, .removeProfile _ | .profilesHidden, .listProfiles | .profilesHidden, .rekey => true
+  | .configHidden, .setDefaultProfile | .configHidden, .getDefaultProfile | .configHidden, .rekey => true
+  | _, _ => false
+
+/-- result of a store call on a backend carrying `faults`: a statement that is hit fails the whole call with
+    Backend (and, the call being one statement or one transaction, leaves the store as it was) -/
+def faultedResult {ρ : Type} (faults : List Fault) (call : StoreCall) (own : Except Err ρ) : Except Err ρ :=
+  if faults.any (·.hits call) then .error .backend else own
+
+/-- what the callback of an accepted call delivers, and what `askar_get_current_error` reports afterwards:
+    the error arm of every callback closure is `cb(cb_id, set_last_error(Some(err)), …)` -/
+def deliver {ρ : Type} (fires : List (Fire ρ)) (slot : ErrSlot) : ErrSlot :=
+  fires.foldl (fun s f => match f.result with | .ok _ => s | .error e => (setLastError (Code.ofErr e) s).2) slot
 
 /-! ## (i) Logger entry points (src/ffi/log.rs) -/
 
